@@ -17,6 +17,8 @@ type MuxScenario struct {
 	Alpha  []MOp
 	Depth  int
 	Dedup  bool
+	// ShareAF: see MuxH.ShareAF
+	ShareAF bool
 }
 
 const (
@@ -187,6 +189,10 @@ func MuxScenarios(thorough bool) []MuxScenario {
 		MuxScenario{Name: "auto-pid-next-to-reserved-p40", Period: 40, Setup: []MOp{opAddA, opPcrA, {K: "add", PID: 0x0fff, ST: stAAC}, opAddHi},
 			Alpha: []MOp{{K: "churn", N: 3837}, {K: "churn", N: 4090}, opAddAuto, opDataA1, opDataAuto, opTables}, Depth: 4, Dedup: true},
 		MuxScenario{Name: "packet-size-edges-p2", Period: 2, Setup: setupA, Alpha: muxPktEdgeAlpha, Depth: 3, Dedup: true},
+		// one adaptation field struct edited between calls: fields that fit, that leave no room for the PES header, that
+		// cannot fit a packet at all - whatever a call leaves in the struct's length bookkeeping is what the next call finds
+		MuxScenario{Name: "shared-af-struct-p2", Period: 2, Setup: setupA, ShareAF: true,
+			Alpha: []MOp{opDataAbig, opDataAwrap, opDataAnor, opDataARAI, opDataAprv, opDataAs1, opDataA1, {K: "data", PID: 0x100, Len: 10, AF: "priv167"}, {K: "data", PID: 0x100, Len: 400, AF: "splice"}}, Depth: 3},
 		MuxScenario{Name: "fix-add-remove", Period: 40, Setup: setupA, Alpha: []MOp{opAddB, opRmB, opTables}, Depth: -1, Dedup: true},
 		MuxScenario{Name: "fix-readd-p1", Period: 1, Setup: setupA, Alpha: []MOp{opRmA, opAddA, opDataA1}, Depth: fixDepth, Dedup: true},
 		MuxScenario{Name: "readd-two-pids-p40", Period: 40, Setup: setupAB, Alpha: []MOp{opRmA, opAddA, opDataA1, opDataB1, opRmB, opAddB}, Depth: readdDepth, Dedup: true},
@@ -209,6 +215,7 @@ type muxRun struct {
 // runMux replays setup+history on a fresh Muxer with the monitor in lock-step.
 func runMux(sc *MuxScenario, hist []uint8, seed int64) *muxRun {
 	h := NewMuxH(sc.Period)
+	h.ShareAF = sc.ShareAF
 	mon := NewMuxMon(sc.Period)
 	r := &muxRun{H: h, Mon: mon}
 	step := func(op MOp) {
